@@ -20,7 +20,7 @@
 (* Mode "djb": the case-folding DJB hash on ASCII strings.                    *)
 EXTENDS Lookup, TLC, Json
 LOCAL SX == INSTANCE SequencesExt
-CONSTANTS Mode, MaxNames, MaxEntries, DjbLen
+CONSTANTS Mode, MaxNames, MaxEntries, DjbLen, PoolNames, RawLen
 VARIABLE c
 
 H(n) == FromNat(n, 4)
@@ -61,11 +61,15 @@ HashInv == c.m = "hash" =>
     LET v  == (Len(c.hs) + c.B) % 4
         nx == HashNx(c.B, c.hs, BuildBuckets(c.hs, c.B), IF v < 2 THEN 32 ELSE 64) IN
     /\ HashTheorem(nx)
+    /\ LET h == [fmt |-> nx.fmt, cus |-> nx.cus, bcount |-> nx.bcount, buckets |-> nx.buckets, hashes |-> nx.hashes,
+                 stroffs |-> [i \in DOMAIN nx.names |-> nx.names[i].stroff],
+                 dies |-> [i \in DOMAIN nx.names |-> FromNat(32 + i, 4)]] IN
+       \A le \in BOOLEAN : UniformNx(h) = nx /\ EncNamesUniform(h, le) = EncNames(nx, le)   \* the linear-time layout used by LookupTrace
     /\ PrintT(<<"CASE", ToJson(Case(<<nx>>, v % 2 = 0, "hash", [wf |-> TRUE]))>>)
 
 (*-------------------------------- raw -----------------------------------*)
 RawInit == c \in {[m |-> "raw", B |-> B, hs |-> <<>>, bk |-> <<>>] : B \in 1..2}
-RawNext == \/ /\ c.bk = <<>> /\ Len(c.hs) < 3
+RawNext == \/ /\ c.bk = <<>> /\ Len(c.hs) < RawLen
               /\ \E h \in {H(1), H(2), H(3)} : c' = [c EXCEPT !.hs = Append(c.hs, h)]
            \/ /\ Len(c.bk) < c.B /\ Len(c.hs) > 0
               /\ \E s \in 0..(Len(c.hs) + 2) : c' = [c EXCEPT !.bk = Append(c.bk, s)]
@@ -123,7 +127,7 @@ ResolveSym(names) ==
 NEntries(names) == SumSeq([i \in DOMAIN names |-> Len(names[i].series)])
 PoolInit == c = [m |-> "pool", names |-> <<>>]
 PoolNext ==
-    \/ /\ Len(c.names) < MaxNames
+    \/ /\ Len(c.names) < PoolNames
        /\ (c.names # <<>> => c.names[Len(c.names)].series # <<>> \/ Len(c.names) = 1)
        /\ c' = [c EXCEPT !.names = Append(c.names, [stroff |-> 5 * Len(c.names) + 1, series |-> <<>>])]
     \/ /\ c.names # <<>> /\ NEntries(c.names) < MaxEntries
